@@ -89,7 +89,7 @@ def exhaustive_cases(thorough: bool):
     shapes = [
         # (substrate label counts, product label counts)
         ((1,), (1,)), ((2,), (2,)), ((1, 1), (2,)), ((2,), (1, 1)), ((1,), (2,)), ((2,), (1,)), ((), (2,)), ((2,), ()),
-        ((1, 0), (1,)), ((1,), (0, 1)),
+        ((1, 0), (1,)), ((1,), (0, 1)), ((2, 1, 1), (1,)), ((1,), (1, 2, 1)),
     ]
     if thorough:
         shapes += [((3,), (3,)), ((1, 2), (3,)), ((3,), (2, 1)), ((2, 1), (1, 2)), ((2,), (3,)), ((1, 1), (1, 1)), ((1, 1, 1), (3,))]
